@@ -61,6 +61,9 @@ func init() {
 // schedShare: number of scenarios still to run (the remaining budget is divided evenly).
 var schedShare = 1
 
+// schedFrac: fraction of the remaining budget the scenarios may use (checks with a second part lower it).
+var schedFrac = 1.0
+
 // exploreScenarios explores the scenarios in order, giving each an equal share of the remaining budget.
 func exploreScenarios(t *testing.T, run *ev.Run, names []string, maxBound int, tot *schedTotals, classify func(problem string) string) {
 	for i, n := range names {
@@ -133,7 +136,7 @@ func exploreScenario(t *testing.T, run *ev.Run, name string, maxBound int, tot *
 	}
 	// bounds are explored cumulatively by a single run at maxBound (the DFS visits low-cost
 	// alternatives first); the completed bound is recorded.
-	budget := int(time.Until(run.Deadline()).Seconds())
+	budget := int(time.Until(run.Deadline()).Seconds() * schedFrac)
 	if schedShare > 1 {
 		budget = budget / schedShare
 	}
